@@ -244,4 +244,140 @@ theorem data_eq_of_holds (hlen : ∀ h, (hf.toBytes h).length = 32) {kind : Stor
   intro i hi
   rw [(hblock i hi).2, blockAt_flatMap _ _ h64 i hi]
 
+/-! ## histories -/
+
+theorem mem_writes {es : List (Ev H)} {off : Nat} {data : List UInt8} :
+    (off, data) ∈ FaultL.writes es ↔ Ev.write off data ∈ es := by
+  induction es with
+  | nil => simp [FaultL.writes]
+  | cons e es ih =>
+    cases e with
+    | write o b =>
+      simp only [FaultL.writes, List.mem_cons, ih, Prod.mk.injEq, Ev.write.injEq]
+    | save n l r =>
+      simp only [FaultL.writes, List.mem_cons, ih]
+      constructor
+      · exact Or.inr
+      · rintro (h | h)
+        · cases h
+        · exact h
+
+theorem mem_saves {es : List (Ev H)} {node : Nat} {l r : H} :
+    (node, l, r) ∈ FaultL.saves es ↔ Ev.save node l r ∈ es := by
+  induction es with
+  | nil => simp [FaultL.saves]
+  | cons e es ih =>
+    cases e with
+    | save n a b =>
+      simp only [FaultL.saves, List.mem_cons, ih, Prod.mk.injEq, Ev.save.injEq]
+    | write o b =>
+      simp only [FaultL.saves, List.mem_cons, ih]
+      constructor
+      · exact Or.inr
+      · rintro (h | h)
+        · cases h
+        · exact h
+
+theorem applyWrites_eq (t : List UInt8) (ws : List (Nat × List UInt8)) :
+    FaultL.applyWrites t ws = C01.applyWrites t ws := rfl
+
+theorem applySaves_eq (hf : HashFns H) (ob : Store H) (ss : List (Nat × H × H)) :
+    FaultL.applySaves hf ob ss = C01.applySaves hf ob ss := rfl
+
+/-- what `Trace (EG …)` says about a write of the list -/
+theorem trace_write {es : List (Ev H)} (htr : Trace (EG hf d bs) [] es) {off : Nat}
+    {data : List UInt8} (hmem : Ev.write off data ∈ es) :
+    ∃ c e, Sub d c e ∧ c < e ∧ off = c * 1024 ∧ data = slice d c e ∧
+      ∀ x, c ≤ x → x < e → ∀ L, bs ≤ L → midOf (x / 2 ^ (L + 1)) L < nChunks d.length →
+        sEv hf d (x / 2 ^ (L + 1)) L ∈ es.reverse := by
+  obtain ⟨a, b, rfl⟩ := List.append_of_mem hmem
+  obtain ⟨c, e, h1, h2, h3, h4, h5⟩ := Trace.split a _ b [] htr
+  refine ⟨c, e, h1, h2, h3, h4, fun x hx1 hx2 L hb hm => ?_⟩
+  have := h5 x hx1 hx2 L hb hm
+  rw [List.append_nil] at this
+  rw [List.reverse_append]
+  exact List.mem_append_right _ this
+
+/-- what `Trace (EG …)` says about a save of the list -/
+theorem trace_save {es : List (Ev H)} (htr : Trace (EG hf d bs) [] es) {node : Nat} {l r : H}
+    (hmem : Ev.save node l r ∈ es) :
+    ∃ k L, L < 64 ∧ bs ≤ L ∧ midOf k L < nChunks d.length ∧ node = nodeOf k L ∧
+      (l, r) = Spec.pair hf d k L := by
+  obtain ⟨a, b, rfl⟩ := List.append_of_mem hmem
+  obtain ⟨k, L, h1, h2, h3, h4⟩ := Trace.split a _ b [] htr
+  simp only [sEv, Ev.save.injEq] at h4
+  obtain ⟨rfl, rfl, rfl⟩ := h4
+  exact ⟨k, L, h1, h2, h3, rfl, rfl⟩
+
+theorem slice_length_le' (d : List UInt8) (c e : Nat) : (slice d c e).length ≤ (e - c) * 1024 := by
+  rw [C01.slice_length]; omega
+
+section hist
+variable [BEq H] [LawfulBEq H]
+
+/-- **master invariant of histories** (true root, true geometry, non-empty store kind): the final
+sink is the initial one after a labelled list `es` of completed calls, the slot of every node saved
+in `es` holds its true pair at the end, and the backing has not grown beyond the outboard size -/
+theorem hist_master (cf : CollisionFree hf) (hlen : ∀ h, (hf.toBytes h).length = 32)
+    (hd : d.length ≤ 2 ^ 63) (hbs : bs ≤ 10) (ops : List Op) (sink : Sink H)
+    (hroot : sink.ob.root = Spec.root hf d) (htree : sink.ob.tree = ⟨d.length, bs⟩)
+    (hk : sink.ob.kind ≠ .empty) :
+    ∃ (es : List (Ev H)) (P : List Nat), Table H d bs sink.ob.kind P ∧
+      ((sink.ob.kind = .preIo ∨ sink.ob.kind = .preMem) → P = persistedPre d.length bs) ∧
+      ((sink.ob.kind = .postIo ∨ sink.ob.kind = .postMem) → P = persistedPost d.length bs) ∧
+      run hf ops sink = applyEvs hf sink es ∧ EvsOk hf sink es ∧ Trace (EG hf d bs) [] es ∧
+      HInv hf d bs es.reverse (run hf ops sink).ob ∧
+      (run hf ops sink).ob.data.length ≤ max sink.ob.data.length (P.length * 64) := by
+  obtain ⟨es, h1, h2, h3⟩ := run_log (bs := bs) cf hd ops sink hroot htree
+  obtain ⟨P, T, hp1, hp2⟩ := table_exists (H := H) hd hbs hk
+  obtain ⟨g1, g2⟩ := evs_holds hlen T es sink [] rfl htree h2 h3
+    (fun _ _ _ _ _ h => by cases h)
+  rw [List.append_nil, ← h1] at g1
+  rw [← h1] at g2
+  exact ⟨es, P, T, hp1, hp2, h1, h2, h3, g1, g2⟩
+
+end hist
+
+/-- every save of the list succeeds when the list is applied in order -/
+def SavesOk (hf : HashFns H) : Store H → List (Nat × H × H) → Prop
+  | _, [] => True
+  | ob, p :: ps => ∃ ob', ob.save hf p.1 p.2 = .ok ob' ∧ SavesOk hf ob' ps
+
+theorem EvsOk.saves : ∀ (es : List (Ev H)) (sink : Sink H), EvsOk hf sink es →
+    SavesOk hf sink.ob (FaultL.saves es) := by
+  intro es
+  induction es with
+  | nil => intro _ _; trivial
+  | cons e es ih =>
+    intro sink h
+    cases e with
+    | write off data => exact ih (applyEv hf sink (.write off data)) h.2
+    | save node l r =>
+      obtain ⟨⟨ob', hs⟩, h2⟩ := h
+      have e : applyEv hf sink (.save node l r) = { sink with ob := ob' } := by
+        simp only [applyEv, saveOrKeep, hs]
+      rw [e] at h2
+      exact ⟨ob', hs, ih _ h2⟩
+
+/-- the writes of a labelled list are writes of true leaves -/
+theorem trace_trueLeaf {es : List (Ev H)} (htr : Trace (EG hf d bs) [] es) :
+    ∀ w ∈ FaultL.writes es, TrueLeaf d w.1 w.2 := by
+  intro w hw
+  obtain ⟨c, e, hs, -, hoff, hdata, -⟩ := trace_write htr (mem_writes.1 hw)
+  exact ⟨c, e, hs, hoff, hdata⟩
+
+/-- a covered byte position lies in a write of the list whose chunk interval contains its chunk -/
+theorem cov_chunk {es : List (Ev H)} (htr : Trace (EG hf d bs) [] es) {i : Nat}
+    (hc : Cov (FaultL.writes es) i) :
+    ∀ L, bs ≤ L → midOf (i / 1024 / 2 ^ (L + 1)) L < nChunks d.length →
+      sEv hf d (i / 1024 / 2 ^ (L + 1)) L ∈ es.reverse := by
+  obtain ⟨w, hw, h1, h2⟩ := hc
+  obtain ⟨c, e, -, hce, hoff, hdata, hanc⟩ := trace_write htr (mem_writes.1 hw)
+  have hl := slice_length_le' d c e
+  rw [← hdata] at hl
+  rw [hoff] at h1 h2
+  have hx1 : c ≤ i / 1024 := by omega
+  have hx2 : i / 1024 < e := by omega
+  exact hanc _ hx1 hx2
+
 end Bao.C07L
